@@ -12,7 +12,8 @@ class C06(HistCheck):
     RULE = ("NSDE / GDE3(+MNN, 2NN, P) / NSDE-R driven by ask-and-tell for 4 generations on random bounded problems (2..3 objectives, 0..2 constraints, rounded values), "
             "both rank-and-crowding survivals with every metric, Das-Dennis reference directions for NSDE-R; per generation the new population is compared with the "
             "model step (recorded oracle answers) and judged by an independent dominance oracle; NSDE-R's reference-direction survival is pymoo code: oracle only; "
-            "non-trivial = run of >= 2 generations; distinct by hash")
+            "non-trivial = run of >= 2 generations; distinct by hash"
+            "; 30% of NSDE/GDE3 cases use the algorithm's default survival object, 30% of all cases run after a default-constructed algorithm of the same class was stepped on another (constrained <-> unconstrained) problem in the same process")
     ASSUMPTIONS = ["NSGA-III ReferenceDirectionSurvival (NSDE-R) is not modelled: its output is judged by the independent oracle only (validated contract)",
                    "survival oracles as in C03"]
 
